@@ -25,7 +25,13 @@ func (g *G) deepString() string {
 	n := 2 + g.intn("depth", 30)
 	rep := func(s string, k int) string { return strings.Repeat(s, k) }
 	var s string
-	switch g.intn("deepkind", 8) {
+	switch g.intn("deepkind", 11) {
+	case 8:
+		s = "$[?(@" + rep("['a','b']", n) + ")]"
+	case 9:
+		s = "$" + rep("['a','b']", n) + ".g1()"
+	case 10:
+		s = "$[?(@" + rep("[*,*]", n) + " && $" + rep("..a", n/2) + ")]"
 	case 0:
 		s = "$" + rep("[?(@.a", n) + rep(")]", n)
 	case 1:
